@@ -320,6 +320,9 @@ def fixed_cases(tier):
         out.append(gen_cycle(r))
     for t in ('bkl', 'bkl-o', 'bkld', 'bkli', 'bklr'):
         out.append({'kind': 'fault', 'tool': t})
+    import base64
+    for y in (b'a: &anchor\n  <<: *anchor\n', b'a: &x\n  - *x\n', b'a: &x\n  b: &y\n    c: *x\n', b'&r [*r]\n', b'a: &x {k: *x}\n', b'x: &a\n  <<: [*a]\n'):
+        out.append({'kind': 'bytes', 'ext': 'yaml', 'b64': base64.b64encode(y).decode(), 'fmt': 'json', 'tools': True})
     for d in ({'$repeat': 0, 'a': 1}, [{'$repeat': 0}, 1], {'$repeat': 1, 'a': 1}, {'$repeat': {'a': 0}, 'b': 1}, {'$output': False, 'a': 1}, {'$merge:a': 1, 'a': 5}, {'$"{a}"': 1, 'a': 5}, {'$repeat': 2, '$repeat2': 1}, {'a': {'$repeat': 2, 'k': 1}}, {'$env:HOME': {'$repeat': 1}}, {'k': {'$repeat': 1, '$value': 2}}):
         out.append({'kind': 'struct', 'layers': [[d]], 'fmt': 'json', 'files': True, 'tools': True})
     return out
